@@ -125,4 +125,3 @@ func (w *World) RunUnits(sel func(name string) bool) []*UnitResult {
 	return out
 }
 
-func checkMain(args []string) int { return 2 }
